@@ -8,15 +8,16 @@ Layer A model of `univers.versions.LegacyOpensslVersion` (scheme `legacy_openssl
   kept as an `Except` (theorem `Legacy.parse_no_raise` in `OpensslThm.lean`: on ASCII text none
   of them is reachable behind the `startswith` test);
 * `is_valid`, `build_value`, `__str__`;
-* hand-written `__lt__`/`__gt__` with the pre-release rule; `__eq__ __ne__ __le__ __ge__
-  __hash__` INHERITED from the attrs-generated methods of `Version`.  The class is not
+* hand-written `__lt__`/`__gt__` with the pre-release rule, hand-written `__le__`/`__ge__`
+  (`lt or ==`, `gt or ==`); `__eq__ __ne__ __hash__` INHERITED from the attrs-generated methods
+  of `Version`.  The class is not
   re-decorated with `attr.s`, so its `attr.ib` declarations `major/minor/build/patch` are not
   attrs fields: `attr.fields(LegacyOpensslVersion)` = `string, normalized_string, value`, and only
   `value` (the 4-tuple) takes part in eq / order / hash.
 
 `OpensslVersion`: `is_valid_new`, `is_valid_legacy`, `is_valid`, `build_value` (value = a
 `LegacyOpensslVersion` or a `SemverVersion` OBJECT), hand-written `__eq__ __lt__ __gt__ __le__
-__ge__`, inherited attrs `__ne__` (which calls `self.__eq__`), `__hash__ = None`.
+__ge__`, inherited attrs `__ne__` (which calls `self.__eq__`), `__hash__` = `hash(self.value)`.
 No Mathlib.
 -/
 import Univers.Scheme.Semver
@@ -108,14 +109,16 @@ def mixedPre (a b : Raw) : Bool :=
   (a.major == b.major && a.minor == b.minor && a.build == b.build) &&
     (isPrerelease a != isPrerelease b)
 
-/-- `__lt__`/`__gt__` hand-written; the four others inherited from attrs on `(self.value,)` -/
+/-- `__lt__`/`__gt__` hand-written with the pre-release rule; `__le__` = `self.__lt__(other) or
+self == other`, `__ge__` = `self.__gt__(other) or self == other` (hand-written since the repair of
+the C02 defect); `__eq__`/`__ne__` inherited from attrs on `(self.value,)` -/
 def verOps : VOps Raw where
   lt a b := if mixedPre a b then isPrerelease a else valOps.lt a b
   gt a b := if mixedPre a b then isPrerelease b else valOps.gt a b
   eq a b := (Py.attrsOps valOps).eq a b
   ne a b := (Py.attrsOps valOps).ne a b
-  le a b := (Py.attrsOps valOps).le a b
-  ge a b := (Py.attrsOps valOps).ge a b
+  le a b := (if mixedPre a b then isPrerelease a else valOps.lt a b) || (Py.attrsOps valOps).eq a b
+  ge a b := (if mixedPre a b then isPrerelease b else valOps.gt a b) || (Py.attrsOps valOps).eq a b
 
 /-- the three-way result of the two hand-written operators -/
 def vercmp (a b : Raw) : Ordering :=
@@ -223,10 +226,11 @@ def verOps : VOps Raw := valOps
 def vercmp (a b : Raw) : Ordering :=
   if verOps.lt a b then .lt else if verOps.gt a b then .gt else .eq
 
-/-- `__eq__` defined without `__hash__`: `OpensslVersion.__hash__ is None` -/
-def hashable : Bool := false
+/-- `OpensslVersion.__hash__` returns `hash(self.value)` -/
+def hashable : Bool := true
 
-/-- not used by Python (unhashable); the value an attrs hash would be computed from -/
+/-- `hash(self.value)`: the attrs hash of the inner `LegacyOpensslVersion` (its value tuple) or
+`SemverVersion` (its five fields) -/
 def hashKey (r : Raw) : Raw := r
 
 end Univers.Openssl
